@@ -353,7 +353,7 @@ static void c07rand(unsigned long nseq, int nops)
 {
     S = malloc(sizeof(SYS));
     for (unsigned long q = 0; q < nseq; q++) {
-        int pool = 1 + (int)(rnd() % 16);
+        int pool = (int)(rnd() % 17);          /* 0: a node without a timer pool - nothing can be created */
         sys_init(pool, 1);
         Failed = 0; TrN = 0; tr(T_HDR2, pool, 0, 0, 0);
         uint32_t maxd = (rnd() % 3 == 0) ? 3 : 50;
